@@ -445,7 +445,7 @@ func runC14(c *Ctx) {
 	if c.Thorough() {
 		nHist = 2500
 	}
-	c.R.Rule = fmt.Sprintf("%d random histories (s3mem store; the uploader is shared by all backends) of initiate / upload-part / overwrite / abort / complete over keys {a, d/x, d/y, e/z, f} with 1–3 uploads per key and part numbers with gaps; then ListMultipartUploads for every max-uploads 1..n+1 following the returned (key, upload-id) markers, with and without prefix/delimiter, and ListParts for every max-parts 1..n+1 following NextPartNumberMarker, plus arbitrary numeric part-number markers (0, existing, gaps, highest, highest+1, 10000, 2^63-1); each page is compared with the Lean model, the concatenation of a walk with the specification (exactly the pending uploads by key then initiation / exactly the held parts ascending with true numbers); non-trivial = distinct history with at least 3 pending uploads or 3 parts", nHist)
+	c.R.Rule = fmt.Sprintf("%d random histories (s3mem store; the uploader is shared by all backends) of initiate / upload-part / overwrite / abort / complete over keys {a, d/x, d/y, e/z, f} with 1–3 uploads per key and part numbers with gaps up to 10000 (incl. 999…1200); then ListMultipartUploads for every max-uploads 1..n+1 following the returned (key, upload-id) markers, with and without prefix/delimiter, and ListParts for every max-parts 1..n+1 following NextPartNumberMarker, plus arbitrary numeric part-number markers (0, existing, gaps, highest, highest+1, 10000, 2^63-1); each page is compared with the Lean model, the concatenation of a walk with the specification (exactly the pending uploads by key then initiation / exactly the held parts ascending with true numbers); non-trivial = distinct history with at least 3 pending uploads or 3 parts", nHist)
 	for hI := 0; hI < nHist; hI++ {
 		c14History(c)
 	}
@@ -487,7 +487,7 @@ func c14History(c *Ctx) {
 			}
 		case x < 8:
 			u := ups[c.Rng.Intn(len(ups))]
-			pn := []int{1, 2, 3, 4, 6, 9, 12}[c.Rng.Intn(7)]
+			pn := []int{1, 2, 3, 4, 6, 9, 12, 999, 1000, 1001, 1200, 4097, 10000}[c.Rng.Intn(13)]
 			body := c.randBytes(1 + c.Rng.Intn(9))
 			l, o := r.MpPart(u.bucket, u.key, u.id, fmt.Sprint(pn), body, "", nil)
 			step(l, o, "uploadPart")
@@ -646,7 +646,7 @@ func c14History(c *Ctx) {
 			}
 		}
 		// arbitrary numeric markers
-		for _, mk := range []string{"0", "1", "2", "5", "12", "13", "10000", "9223372036854775807", "99999999999999999999", "-1", "x"} {
+		for _, mk := range []string{"0", "1", "2", "5", "12", "13", "999", "1000", "1001", "1200", "5000", "10000", "10001", "9223372036854775807", "99999999999999999999", "-1", "x"} {
 			var v int64
 			if _, err := fmt.Sscan(mk, &v); err != nil || v < 0 {
 				v = 0
